@@ -33,10 +33,22 @@ let play_wire thr toks =
     | [id; len] -> Printf.sprintf "%s:%s:%s" (dec_of_n (layout thr (n_of_dec len))) id len
     | _ -> failwith "bad play token") toks)
 
+(* regs=<hex id>/<hex key>:<hex nbt>+<hex key>:<hex nbt>...,... : the registries of the stock configuration
+   handler in struct order; the model renders each registry with reg_write *)
+let regs_of_kvs kvs =
+  List.map (fun t -> match String.split_on_char '/' t with
+                     | [i; es] ->
+                         let ents = List.map (fun e -> match String.split_on_char ':' e with
+                                                       | [k; v] -> (bytes_of_hex k, bytes_of_hex v)
+                                                       | _ -> failwith "bad registry entry") (split '+' es) in
+                         (bytes_of_hex i, reg_write ents)
+                     | _ -> failwith "bad regs token")
+    (split ',' (try List.assoc "regs" kvs with Not_found -> "-"))
 let bcfg_of kvs =
+  let known = List.map fst (regs_of_kvs kvs) in
   { bc_name = bytes_of_hex (get kvs "name"); bc_claim = bytes_of_hex (get kvs "claim");
     bc_host = bytes_of_hex (get kvs "host"); bc_port = n_of_dec (get kvs "port");
-    bc_plugin = (fun _ _ -> None); bc_cookie = (fun _ -> None); bc_registry_known = (fun _ -> false);
+    bc_plugin = (fun _ _ -> None); bc_cookie = (fun _ -> None); bc_registry = (fun rid _ -> if List.mem rid known then Some true else None);
     bc_time = z_of_dec (try List.assoc "time" kvs with Not_found -> "0") }
 let scfg_of kvs =
   let chk = get kvs "chk" in
@@ -49,7 +61,7 @@ let scfg_of kvs =
   let status = (try List.assoc "json" kvs with Not_found -> "none") in
   { sc_threshold = z_of_dec (get kvs "thr"); sc_checker = checker;
     sc_cfg = (if (try List.assoc "cfg" kvs with Not_found -> "finish") = "stock" then CfgStock else CfgFinishOnly);
-    sc_registry_blob = bytes_of_hex (try List.assoc "blob" kvs with Not_found -> "-");
+    sc_registries = regs_of_kvs kvs;
     sc_status = (fun _ -> if status = "none" then None else Some (bytes_of_hex status)) }
 
 let finish offl bc sc x0 sched =
